@@ -58,9 +58,51 @@ def comparison_is_operator_dependent(ctx):
     dispatch on `op` (e.g. `if value is empty { return false }`) makes `A` and `not A` both false for the same entry"""
     name = "searcher::Searcher::conforms"
     h = ctx.anchor_hir(name)
+    # by evaluation (rules/conf.py): a comparison and the same comparison under the opposite operator never agree, whatever
+    # the column holds (text, empty text, a number, a boolean), whether the literal has wildcards, and whatever the regex says
+    import conf
+    import interp
+    run = conf.Run(ctx)
+    pairs = (("Eq", "Ne"), ("Eeq", "Ene"), ("Gt", "Lte"), ("Gte", "Lt"), ("Rx", "NotRx"), ("Like", "NotLike"))
+    lefts = {"text": (conf.variant("a.txt"), ("a.txt", "*.txt", "a%")), "empty text": (conf.variant(""), ("", "*.txt", "x")),
+             "integer": (conf.variant("5", "Int", int_value=5, float_value=5.0), ("5", "7")), "float": (conf.variant("2.5", "Float", int_value=2, float_value=2.5), ("2.5", "1")),
+             "boolean": (conf.variant("true", "Bool", bool_value=True), ("true", "false"))}
+    ne = 0
+    agree = None
+    unread = None
+    for kind, (left, lits) in lefts.items():
+        for lit in lits:
+            for a, b in pairs:
+                if kind in ("integer", "float", "boolean") and a in ("Rx", "Like"):
+                    continue
+                if kind in ("boolean", "text", "empty text") and a in ("Gt", "Gte"):
+                    continue        # ordering is defined for numbers and dates only (C02: text compares by equality or pattern)
+                for matched in (False, True):
+                    for glob in ((True, False) if ("*" in lit or "?" in lit) else (False,)):
+                        try:
+                            ra, _t = run.run(a, dict(left), conf.variant(lit), matched=matched, is_glob=glob)
+                            rb, _t = run.run(b, dict(left), conf.variant(lit), matched=matched, is_glob=glob)
+                        except interp.Undecided as e:
+                            unread = unread or "%s %s `%s`: %s" % (kind, a, lit, e)
+                            continue
+                        ne += 1
+                        if isinstance(ra, bool) and isinstance(rb, bool) and ra == rb and agree is None:
+                            agree = "a column holding %s (`%s`) compared with `%s`%s: %s gives %s and %s gives %s too" % (
+                                kind, left["string_value"], lit, " (regex verdict %s)" % matched if a in ("Rx", "Like", "Eq") else "", a, ra, b, rb)
+    ctx.obligation(agree is None)
+    if agree:
+        ctx.violation("conforms/operator-independent-result", ctx.where(name),
+                      "a comparison and the same comparison under the opposite operator must never agree (NOT is the complement): %s" % agree)
+    ctx.covered("pairs of opposite operators evaluated on text / empty text / number / boolean columns x literals x regex verdicts (never the same answer)", ne,
+                distinct_keys=[a for a, _b in pairs], exhaustive=True)
+    ctx.floor(ne, 100, "opposite-operator evaluations of conforms", name)
     body, op_ids = comparison_branch(h)
-    if body is None:
-        ctx.violation("anchor/comparison-branch", name, "comparison branch (`if let Some(op) = expr.op`, `let Some(op) = .. else`, `match expr.op`) of conforms not found")
+    if body is None or unread is None and not [m_ for m_ in walk_exprs(body) if m_["k"] == "Match" and any(y["k"] == "Path" and y.get("res") in op_ids for y in walk_exprs(m_["scrut"]))]:
+        # the comparison branch is not written as a dispatch on the operator that the structural part below could read: the
+        # evaluation above stands alone, provided it covered every scenario
+        if unread:
+            ctx.obligation(False)
+            ctx.violation("anchor/comparison-branch", name, "the comparison branch of conforms is neither a readable dispatch on the operator nor evaluable: %s" % unread)
         return
     br = {"t": body}
     n = 0
@@ -161,43 +203,38 @@ def keyword_arm_guards(ctx):
 
 
 def operator_is_the_lexed_one(ctx):
-    """the comparison node built by parse_cond carries the operator the query spells (Op::from_with_not of the operator
-    lexem), not one derived from the operands: `like` without wildcards is still a case-insensitive whole-string match"""
-    import sem
+    """the comparison node built by parse_cond carries the operator the query spells, whatever the operands look like: `like`
+    without wildcards is still a case-insensitive whole-string match, `=` with a `%` is still `=`.  parse_cond is evaluated
+    (c03.eval_parse_cond: the operand level is a stand-in) for every documented operator spelling with a literal without
+    wildcards, with glob wildcards and with LIKE wildcards"""
+    import interp
+    import oracles
+    import c03
+    V = interp.V
     name = "parser::Parser::parse_cond"
-    h = ctx.anchor_hir(name)
-    locs = Locals(h)
     n = 0
-    for c in calls_to(h, "expr::Expr::op"):
-        a = peel(c["args"][1], methods=False)
-        n += 1
-        ok = False
-        why = render(a)[:80]
-        if a["k"] == "Path" and a.get("rk") == "Local":
-            d = locs.payload_defs.get(a["res"]) or locs.defs.get(a["res"])
-            if d is not None:
-                dd = peel(d, methods=False)
-                ok = dd["k"] == "Call" and str(dd.get("callee", "")).endswith("Op::from_with_not") or \
-                    (dd["k"] == "Call" and str(dd.get("callee", "")).endswith("Op::from"))
-                if not ok and dd["k"] in ("If", "Match"):
-                    # a named BETWEEN operator: a choice between fixed operators
-                    leaves = [peel(l, methods=False) for l, _ in leaf_results(dd)]
-                    ok = bool(leaves) and all(l["k"] == "Path" and str(l.get("rk", "")).startswith("Ctor") for l in leaves)
-                why = render(dd)[:80]
-            else:
-                why = "local `%s` without a single definition" % a["name"]
-        elif a["k"] == "If" or a["k"] == "Match":
-            # the BETWEEN desugaring chooses between fixed operators (decided by C02-R2 / C03-R3)
-            leaves = [peel(l, methods=False) for l, _ in leaf_results(a)]
-            ok = all(l["k"] == "Path" and str(l.get("rk", "")).startswith("Ctor") for l in leaves)
-        elif a["k"] == "Path" and str(a.get("rk", "")).startswith("Ctor"):
-            ok = True
-        ctx.obligation(ok)
-        if not ok:
-            ctx.violation("parse_cond/operator-provenance", ctx.where(name, c),
-                          "the comparison is built with an operator computed as `%s` instead of the operator written in the query" % why)
-    ctx.covered("Expr::op constructions in parse_cond whose operator is the lexed one (or a fixed BETWEEN operator)", n, distinct_keys=["sites:%d" % n])
-    ctx.floor(n, 3, "comparison constructions in parse_cond", name)
+    for op, words in oracles.OP_SPELLINGS.items():
+        if op == "Between":
+            continue
+        for word in words:
+            for lit in ("abc", "a*c?", "a%c_"):
+                lex = [V("Lexem::RawString", ["x"]), V("Lexem::Operator", [word]), V("Lexem::String", [lit])]
+                try:
+                    g, idx = c03.eval_parse_cond(ctx, lex)
+                except interp.Undecided as e:
+                    ctx.obligation(False)
+                    ctx.violation("parse_cond/operator-provenance/unreadable", ctx.where(name), "cannot evaluate parse_cond on `x %s '%s'`: %s" % (word, lit, e))
+                    return
+                n += 1
+                ok = g == (op, "x", lit) and idx == 3
+                ctx.obligation(ok)
+                if not ok:
+                    ctx.violation("parse_cond/operator-provenance", ctx.where(name),
+                                  "`x %s '%s'` is parsed as %s: the comparison must carry the operator written in the query (%s) and its operands as written, "
+                                  "whatever the literal looks like" % (word, lit, g, op))
+    ctx.covered("parse_cond evaluated for every documented operator spelling x 3 kinds of literal (operator and operands as written)", n,
+                distinct_keys=sorted(oracles.OP_SPELLINGS), exhaustive=True)
+    ctx.floor(n, 60, "operator spellings through parse_cond", name)
 
 
 def format_size_arguments_unchanged(ctx):
